@@ -190,6 +190,18 @@ def run(ctx):
                 t2 = f2.term(b2)
                 if t2['k'] == 'call' and any(a[0] in ('c', 'm') and any(f.endswith('Scope.parent') for f in place_fields(a[1])) for a in t2['a']):
                     return True
+            # iterator form of the walk: `iter::successors(Some(scope), |id| get_scope(id).and_then(|s| s.parent))`
+            # (the loop is the library's; the step closure, or a closure nested in it, reads Scope.parent)
+            if f2.calls(lambda n: re.search(r'core::iter::(sources::successors::)?successors$', n) is not None):
+                def _nested(cid, depth=0):
+                    out = [cid]
+                    if depth < 2:
+                        for c2 in fx.closures_of(cid):
+                            out += _nested(c2, depth + 1)
+                    return out
+                allc = [c for c0 in fx.closures_of(rec['id']) for c in _nested(c0)]
+                if any(c in fx.fns and any(f.endswith('Scope.parent') for ch in _reads(fx.fns[c]) for f in ch) for c in allc):
+                    return True
             # closures passed to and_then / map inside the loop
             for c in fx.closures_of(rec['id']):
                 if c in fx.fns and any(f.endswith('Scope.parent') for ch in _reads(fx.fns[c]) for f in ch) and inloop:
